@@ -16,7 +16,7 @@ ARRAY_CARRIERS = ['ndarray-f64', 'ndarray-f32', 'ndarray-i64', 'ndarray-i32', 'n
                   'tuple-np.float32', 'list-np.uint16', 'list-mixed-np', 'ndarray-2d-F', 'ndarray-2d-T', 'ndarray-3d', 'ndarray-3d-swap',
                   'ndarray-i64-2d-F', 'ndarray-strided']
 ROUTES = ['ctor', 'call', 'set_val', 'setitem', 'setitem-slice', 'setitem-2d', 'call-reset', 'recfg', 'setitem-reuse',
-          'resize-signed', 'resize-fmt', 'like-signed', 'widen-setitem', 'odd-config', 'config-obj']
+          'resize-signed', 'resize-fmt', 'like-signed', 'widen-setitem', 'odd-config', 'config-obj', 'then-reject', 'reject-then', 'like-flagged']
 _OTHER = {'trunc': 'around', 'fix': 'ceil', 'floor': 'trunc', 'ceil': 'floor', 'around': 'fix', 'saturate': 'wrap', 'wrap': 'saturate'}
 
 
@@ -263,6 +263,32 @@ def do_write(fx, np, route, obj, fmt, modes, n, raw=False):
             x = Fxp(None, like=y, signed=s)
         x.reset()
         x.set_val(obj)
+        return x, x
+    if route in ('then-reject', 'reject-then'):
+        # calls that are REJECTED with an error (index out of range with an integer / a float, a value that is no number, a bit
+        # string longer than the word) before or after the measured write: the object must be what the accepted writes made it
+        def rejected(x):
+            k = int(np.size(x.val)) if x.val is not None else 1
+            bads = [lambda: x.__setitem__(k + 3, 0), lambda: x.__setitem__(k + 3, 0.0), lambda: x.set_val(0, index=k + 3),
+                    lambda: x.set_val({'a': 1}), lambda: x('0b' + '1' * (w + 3)), lambda: x('no number'), lambda: x.set_val([0, None])]
+            rot = (w + f + n) % len(bads)          # (which rejection comes LAST varies: a later one may heal what an earlier one broke)
+            for bad in bads[rot:] + bads[:rot]:
+                try:
+                    bad()
+                except Exception:
+                    pass
+        if route == 'then-reject':
+            x = Fxp(obj, s, w, f, **kw)
+            rejected(x)
+            return x, x
+        x = Fxp(np.zeros(3) if np.ndim(obj) or isinstance(obj, (list, tuple)) else 0.0, s, w, f, **kw)
+        rejected(x)
+        x.set_val(obj)
+        return x, x
+    if route == 'like-flagged':     # built like= a reference object whose flags are all raised at that moment (they are not inherited)
+        ref = Fxp(None, s, w, f, **kw)
+        ref(np.array([2.0 ** (w - f + 2) + 0.3 * 2.0 ** -f, -2.0 ** (w - f + 2) - 0.3 * 2.0 ** -f]))
+        x = Fxp(obj, like=ref)
         return x, x
     if route == 'setitem-reuse':    # history: the array object was USED (anything cached about it exists), then written in place
         from .x_arith import warm_up
